@@ -35,6 +35,9 @@ def decode(x, mods):
             except AttributeError:
                 pass
         return o
+    if t == 'match':
+        mod = importlib.import_module(x['module'])
+        return getattr(getattr(mod, x['cls']), x['attr']).match(x['string'])
     if t == 'object':
         mod = importlib.import_module(x['module'])
         cls = getattr(mod, x['cls'])
